@@ -1,2 +1,63 @@
--- placeholder driver (model for C15 not built yet)
-def main : IO Unit := pure ()
+/-
+  Driver for the name-server operation model (C15).
+    seq <n> {op}*      op = R <name> <uri> <safe> <tags> | M <name> <tags> | D <name> | P <prefix> | L <name> | C | S <prefix>
+      → r1;r2;... | name=uri:tags;...         (results of the sequential run, then the final map in dict order)
+-/
+import PyroModel.NsOps
+import Driver.Util
+
+open Pyro Pyro.NsOps Driver
+
+def parseOps : Nat → List String → Option (List Call)
+  | 0, [] => some []
+  | n + 1, "R" :: name :: uri :: safe :: tags :: rest => do
+    let nm ← parseNatList name
+    let u ← uri.toNat?
+    let t ← parseNatList tags
+    let r ← parseOps n rest
+    pure (.register nm u (safe == "1") t :: r)
+  | n + 1, "M" :: name :: tags :: rest => do
+    let nm ← parseNatList name
+    let t ← parseNatList tags
+    let r ← parseOps n rest
+    pure (.setMeta nm t :: r)
+  | n + 1, "D" :: name :: rest => do
+    let nm ← parseNatList name
+    let r ← parseOps n rest
+    pure (.remove nm :: r)
+  | n + 1, "P" :: name :: rest => do
+    let nm ← parseNatList name
+    let r ← parseOps n rest
+    pure (.removePrefix nm :: r)
+  | n + 1, "L" :: name :: rest => do
+    let nm ← parseNatList name
+    let r ← parseOps n rest
+    pure (.lookup nm :: r)
+  | n + 1, "S" :: name :: rest => do
+    let nm ← parseNatList name
+    let r ← parseOps n rest
+    pure (.list nm :: r)
+  | n + 1, "C" :: rest => do
+    let r ← parseOps n rest
+    pure (.count :: r)
+  | _, _ => none
+
+def resStr : Res → String
+  | .none => "none"
+  | .namingError => "nerr"
+  | .removed k => s!"rm{k}"
+  | .uri u t => s!"uri{u}:{natListToString t}"
+  | .count k => s!"cnt{k}"
+  | .names l => "names<" ++ ",".intercalate (l.map fun (n, u) => s!"{natListToString n}={u}") ++ ">"
+
+def step : List String → String
+  | "seq" :: n :: rest =>
+    match n.toNat?.bind (fun k => parseOps k rest) with
+    | some calls =>
+      let (s, rs) := Lock.seqRun (calls.map toOp) ([] : Store)
+      ";".intercalate (rs.map resStr) ++ " | " ++
+        ";".intercalate (s.map fun (n, u, t) => s!"{natListToString n}={u}:{natListToString t}")
+    | none => "bad-op"
+  | _ => "bad-op"
+
+def main : IO Unit := runDriver step
